@@ -79,7 +79,7 @@ func countBetween(from ssa.Instruction, stop map[*ssa.BasicBlock]bool, match fun
 }
 
 func runC07(w *World, r *Report) {
-	r.Rule("C07-R1", "call content", "ReplicateMessageParam: ChannelName<-channelName, StartPositions/EndPositions/BeginTs/EndTs<-msgPack's same-named fields, Base.ReplicateInfo.IsReplicate=true, MsgsBytes<-accumulator appended exactly once per iteration with the Marshal result of the current message (msg.Marshal(msg)), in order", 9)
+	r.Rule("C07-R1", "call content", "ReplicateMessageParam: ChannelName<-channelName, StartPositions/EndPositions/BeginTs/EndTs<-msgPack's same-named fields, Base.ReplicateInfo.IsReplicate=true, MsgsBytes<-accumulator appended exactly once per iteration with the Marshal result of the current message (msg.Marshal(msg)), in order", 10)
 	r.Rule("C07-R2", "returned checkpoint", "result 0 on the success path is msgPack.EndPositions[len-1].MsgID", 1)
 	r.Rule("C07-R3", "errors are returned", "marshal error, completion error and base64 error: the branch `e != nil` returns e as the error result", 3)
 	r.Rule("C07-R4", "exactly one completion", "handler loop: after ReplicateMessage exactly one of FailFunc(param, err)/SuccessFunc(param) on every path; handleMessage: exactly one of FailFunc / enqueue; writer closures: both send on the channel whose receive dominates the success return", 5)
@@ -206,6 +206,50 @@ func runC07(w *World, r *Report) {
 			}
 		}
 		r.Check(okEl, "C07-R1", base+"MsgsBytes | element", appendCall.Pos(), "element = msg.Marshal(msg).([]byte)", det)
+		// the accumulator is local to this call (not a field / global shared between calls)
+		okLocal, badLeaf := mustDerive(mb, func(v ssa.Value) leafVerdict {
+			switch x := v.(type) {
+			case *ssa.MakeSlice:
+				return leafGood
+			case *ssa.Slice:
+				if isFreshEmptySlice(x) {
+					return leafGood
+				}
+				return leafDescend
+			case *ssa.Call:
+				if b, ok := x.Call.Value.(*ssa.Builtin); ok && b.Name() == "append" {
+					// only the accumulator argument matters for aliasing
+					ok2, _ := mustDerive(x.Call.Args[0], func(y ssa.Value) leafVerdict {
+						switch z := y.(type) {
+						case *ssa.MakeSlice:
+							return leafGood
+						case *ssa.Slice:
+							if isFreshEmptySlice(z) {
+								return leafGood
+							}
+						case *ssa.Call:
+							if y == v {
+								return leafGood
+							}
+							if bb, ok := z.Call.Value.(*ssa.Builtin); ok && bb.Name() == "append" {
+								return leafGood
+							}
+						}
+						return leafDescend
+					})
+					if ok2 {
+						return leafGood
+					}
+					return leafBad
+				}
+			}
+			return leafDescend
+		})
+		det2 := ""
+		if !okLocal {
+			det2 = "the byte accumulator is backed by " + w.accessPath(badLeaf) + ", storage that outlives the call: concurrent calls on other channels overwrite bytes still in flight"
+		}
+		r.Check(okLocal, "C07-R1", base+"MsgsBytes | call-local storage", appendCall.Pos(), "accumulator starts as a fresh slice in this call", det2)
 		// order: accumulator first
 		accOK := false
 		for _, x := range backSlice(appendCall.Call.Args[0], SliceOpts{MaxDepth: 4}) {
